@@ -186,6 +186,9 @@ pub fn negative_table() -> Vec<Negative> {
                 "cc[1].v".into(),
                 "mc[1].v".into(),
             ));
+            // shader inputs: globals without a storage class, and with an explicit `extern`, are read-only
+            forms.push(("write-to-uniform-global", format!("{} gu = {};\nstatic {} gsm = {};\n", t, v1, t, v1).replace(&format!("{} gu = {};", t, v1), &format!("{} gu;", t)), String::new(), "gu".into(), "gsm".into()));
+            forms.push(("write-to-explicitly-extern-global", format!("extern {} ge;\nstatic {} gsm = {};\n", t, t, v1), String::new(), "ge".into(), "gsm".into()));
             forms.push(("write-to-cbuffer-member", format!("cbuffer Constants {{ {} cbm; }}\nstatic {} sgm = {};\n", t, t, v1), String::new(), "cbm".into(), "sgm".into()));
             if w >= 2 {
                 forms.push(("write-to-repeated-swizzle", String::new(), format!("{} m = {};", t, v1), "m.xx".into(), "m.xy".into()));
